@@ -1,7 +1,8 @@
 """C10  Coordinate transforms are mutually consistent and invertible.
 
-Tie T: T13o (literal tables / decision tables of spatial.py), T13e (enum members).
-Tie C: Model/Affine.lean against create_rotation_matrix, create_affine_matrix_from_attributes,
+Tie T: T13o (literal tables / decision tables of spatial.py), T13e (enum members), T13w (argument writes), TC10f (forwarding,
+formulas), TC10g (call specs, for_image forwarding, _get_spatial_information lookups, iter_tiled_full_frame_data loops).
+Tie C: Model/Affine.lean, Model/AffineCalls.lean, Model/AffineImage.lean against create_rotation_matrix, create_affine_matrix_from_attributes,
 _create_inv_affine_matrix_from_attributes, create_affine_matrix_from_components, the six transformer
 classes, the two point helpers, rotation_for_patient_orientation, get_closest_patient_orientation,
 _transform_affine_to_convention / Volume.get_affine, compute_tile_positions_per_frame.
@@ -24,21 +25,26 @@ LEAN_MODULES = ['HdVerif.Props.C10']
 MODEL_MODULES = ['HdVerif.Model.Affine', 'HdVerif.Model.AffineCalls', 'HdVerif.Model.AffineImage']
 NAMESPACE = 'HdVerif.C10'
 DRIVER = 'Drivers/C10.lean'
-RULE = ('one case = one call of a constructor / transformer / helper on a generated plane (position dyadic, orientation '
-        'one of the 24 axis-aligned cosine pairs or an oblique rational rotation, dyadic positive spacings) with '
-        'generated points; non-trivial = accepted by the implementation with a non-identity geometry; distinct by '
-        '(function, convention, handedness, slices_first, spacing form, orientation class, point class)')
+RULE = ('one case = one call of a constructor / transformer / helper / for_image on a generated plane or dataset (position dyadic, '
+        'orientation one of the 24 axis-aligned cosine pairs or an oblique rational rotation, dyadic positive spacings) with generated '
+        'points or arrays; non-trivial = accepted by the implementation with a non-identity geometry; distinct by (function, convention, '
+        'handedness, slices_first, spacing form, orientation class, point class, array shape kind / layout, image kind, history step)')
 ASSUMPTIONS = [
     'float arithmetic inside numpy agrees with rational arithmetic: exactly for forward maps on dyadic inputs with '
     'axis-aligned orientations, within 2^-40 (relative to the magnitude of the inputs) otherwise (inverse, oblique)',
     'np.linalg.inv is the mathematical inverse (adjugate / determinant in the model), singular matrices are refused',
     'np.argsort on a 3-element column is stable (insertion sort), used by get_closest_patient_orientation for ties',
-    'decision boundaries (coplanarity 1e-5, orthogonality 1e-5, half-slice 0.5, rounding .5) are probed at margin >= 4x '
-    'only, except exact dyadic .5 ties for round-half-even',
+    'decision boundaries (coplanarity 1e-5, orthogonality 1e-5, rounding .5) are probed at margin >= 4x only, except exact dyadic .5 ties for '
+    'round-half-even and the half-slice limit, which is also probed EXACTLY (axis-aligned planes with power-of-two spacings)',
+    'rounded outputs of batches are compared with the model only when no un-rounded entry lies within 1e-3 of a tie',
+    'np.meshgrid(range(nc), range(nr), indexing="xy") stacked and reshaped enumerates tiles row by row with the column running fastest',
+    '__call__ receives numpy arrays (a list has no .shape: AttributeError, outside the model); the model sees ndim, shape[1], dtype kind and the rows',
+    'the record of Model/AffineImage.lean is filled from the pydicom dataset by the harness (_describe); is_multiframe_image is an input',
 ]
-MODELLED_NOT_VERIFIED = ['numpy matmul / column_stack / broadcasting / linalg.inv / argsort / around',
-                         'pydicom Dataset attribute access in _get_spatial_information (oracle only)',
-                         'Volume accessors using sqrt (spacing, direction, pixel_spacing): oracle only']
+MODELLED_NOT_VERIFIED = ['numpy matmul / column_stack / vstack / broadcasting / linalg.inv / argsort / around / meshgrid',
+                         'pydicom Dataset attribute access, DS -> float conversion',
+                         'Volume accessors using sqrt (spacing, direction, pixel_spacing): oracle only',
+                         '_transform_affine_matrix with index flips / permutations, _translate_affine_matrix: property C08']
 
 TOL = Fr(1, 2 ** 40)
 CONVS_ALL = ['RD', 'DR', 'LD', 'DL', 'RU', 'UR', 'LU', 'UL']
@@ -1511,6 +1517,89 @@ def _for_images_compare(reqs, pend, case, ds_f, ds_t, frame_f, frame_t, total_f,
     pend.append((dict(case, fn='for_images vs model', frames=[frame_f, frame_t], total=[total_f, total_t], multi=True), impl, tol))
 
 
+def _coord_input(ds):
+    """what get_image_coordinate_system looks at, read off the dataset independently of it"""
+    present = [kw for kw in ('FrameOfReferenceUID', 'ImageOrientationSlide', 'ImageCenterPointCoordinatesSequence', 'ImagePositionPatient',
+                             'SharedFunctionalGroupsSequence', 'PerFrameFunctionalGroupsSequence') if kw in ds]
+    first = []
+    for kw in ('SharedFunctionalGroupsSequence', 'PerFrameFunctionalGroupsSequence'):
+        if kw in ds and len(ds[kw].value) and 'PlanePositionSequence' in ds[kw].value[0] \
+                and 'ImagePositionPatient' in ds[kw].value[0].PlanePositionSequence[0]:
+            first.append(kw)
+    return {'present': present, 'first_item': first}
+
+
+def _coord_cases(ctx, reqs, pend):
+    """PATIENT vs SLIDE: get_image_coordinate_system on every image kind of the generators and on variants with attributes removed
+    / added (no frame of reference, slide markers on a patient image, positions only in the shared / only in the per-frame groups,
+    no position at all).  Oracle from the construction; model = `imageCoordinateSystem` over the regenerated marker lists."""
+    import copy
+    from pydicom import Dataset
+    from pydicom.sequence import Sequence as DSeq
+    from highdicom import spatial as sp
+    from gen import sources
+    for i in range(ctx.n(120, 300)):
+        r = ctx.rng('coord', i)
+        pl = _plane(r)
+        kind = ['single', 'perframe', 'shared', 'sparse', 'full', 'nofor'][i % 6]
+        if kind == 'single':
+            ds, want = sources.ct_series(1, 2, 3, orientation=pl['ori'], origin=pl['pos'], pixel_spacing=pl['ps'])[0], 'PATIENT'
+        elif kind in ('perframe', 'shared'):
+            ds, want = sources.enhanced_multiframe(2, 2, 3, orientation=pl['ori'], origin=pl['pos'], pixel_spacing=pl['ps']), 'PATIENT'
+            if kind == 'shared':
+                ds.SharedFunctionalGroupsSequence[0].PlanePositionSequence = ds.PerFrameFunctionalGroupsSequence[0].PlanePositionSequence
+                for it in ds.PerFrameFunctionalGroupsSequence:
+                    del it.PlanePositionSequence
+        elif kind in ('sparse', 'full'):
+            ds, _ = sources.slide_image(4, 4, 2, 2, tiled_full=(kind == 'full'), origin=(pl['pos'][0], pl['pos'][1], 0.0), pixel_spacing=pl['ps'],
+                                        orientation=pl['ori'])
+            want = 'SLIDE'
+        else:
+            ds, want = sources.single_image_no_for(3, 4), None
+        edit = r.choice(['none', 'none', 'drop_for', 'add_slide_marker', 'add_center_point', 'drop_positions', 'position_in_second_frame_only',
+                         'drop_slide_orientation', 'add_root_position'])
+        ds = copy.deepcopy(ds)
+        if edit == 'drop_for' and 'FrameOfReferenceUID' in ds:
+            del ds.FrameOfReferenceUID
+            want = None
+        elif edit == 'add_slide_marker' and want is not None:
+            ds.ImageOrientationSlide = [0.0, -1.0, 0.0, -1.0, 0.0, 0.0]
+            want = 'SLIDE'
+        elif edit == 'add_center_point' and want is not None:
+            ds.ImageCenterPointCoordinatesSequence = DSeq([Dataset()])
+            want = 'SLIDE'
+        elif edit == 'drop_positions' and want == 'PATIENT':
+            if 'ImagePositionPatient' in ds:
+                del ds.ImagePositionPatient
+            for kw in ('SharedFunctionalGroupsSequence', 'PerFrameFunctionalGroupsSequence'):
+                for it in (ds[kw].value if kw in ds else []):
+                    if 'PlanePositionSequence' in it:
+                        del it.PlanePositionSequence
+            want = None
+        elif edit == 'position_in_second_frame_only' and kind == 'perframe':
+            del ds.PerFrameFunctionalGroupsSequence[0].PlanePositionSequence      # only the FIRST item is looked at
+            want = None
+        elif edit == 'drop_slide_orientation' and want == 'SLIDE':
+            del ds.ImageOrientationSlide
+            want = None
+        elif edit == 'add_root_position' and want == 'SLIDE':
+            ds.ImagePositionPatient = [1.0, 2.0, 3.0]                              # slide markers win
+        st, got = _call(sp.get_image_coordinate_system, ds)
+        gv = None if (st != 'ok' or got is None) else got.value
+        case = {'fn': 'get_image_coordinate_system', 'kind': kind, 'edit': edit}
+        ctx.case(fn='coordinate_system', kind=kind, edit=edit, outcome=str(gv) if st == 'ok' else got,
+                 nontrivial_key=('coord', kind, edit, gv))
+        if st != 'ok' or gv != want:
+            ctx.fail(case, {'got': gv if st == 'ok' else got, 'want': want}, site='coordinate_system')
+        reqs.append(('coordSystem', _coord_input(ds)))
+        pend.append((case, (st, None if gv is None else gv.lower()), 0))
+        # images without a coordinate system have no transformers
+        if want is None:
+            for cls in _tcls():
+                if _call(cls.for_image, ds, frame_number=1 if 'NumberOfFrames' in ds else None)[0] == 'ok':
+                    ctx.fail(dict(case, cls=cls.__name__), 'a transformer is built for an image without coordinate system', site='coordinate_system')
+
+
 # ------------------------------------------------------------------ 5a. TILED_FULL images in general form
 SEG_UID = '1.2.840.10008.5.1.4.1.1.66.4'
 LABELMAP_UID = '1.2.840.10008.5.1.4.1.1.66.7'
@@ -2044,6 +2133,7 @@ def run(ctx):
     _components_cases(ctx, reqs, pend)
     _volume_attr_cases(ctx)
     _dataset_cases(ctx, reqs, pend)
+    _coord_cases(ctx, reqs, pend)
     _history_cases(ctx)
     _compare(ctx, reqs, pend)
 
@@ -2053,7 +2143,7 @@ def replay(ctx, case):
     sub = type(ctx)(ctx.prop, ctx.tier, ctx.seed, 1, ctx.driver)
     sub.model_available = False
     fn = case.get('fn', '') if isinstance(case, dict) else ''
-    streams = [_affine_cases, _transformer_cases, _batch_cases, _pair_cases, _letters_cases, _components_cases, _dataset_cases]
+    streams = [_affine_cases, _transformer_cases, _batch_cases, _pair_cases, _letters_cases, _components_cases, _dataset_cases, _coord_cases]
     for s in streams:
         s(sub, [], [])
     _volume_attr_cases(sub)
